@@ -138,3 +138,625 @@ Proof.
         -- assert (In c (w :: ws)) as [->|H] by (apply B; exists cs'; auto); [congruence|assumption].
     + intros Hp. specialize (C Hp). discriminate.
 Qed.
+
+(* ------------------------------------------------------------------ *)
+(* Inversion principle for [step]: every case in normal form           *)
+
+Inductive sspec (K : nat) (s : state) : label -> state -> Prop :=
+| sp_turn_del_pull c m rest :
+    exited s = false -> mailbox s = RPull c m :: rest -> deleted s = true ->
+    sspec K s LTurn (deliver c (RMsgs 0) (set_mailbox rest s))
+| sp_turn_del_other r rest :
+    exited s = false -> mailbox s = r :: rest -> deleted s = true -> is_pull r = false ->
+    sspec K s LTurn (set_mailbox rest s)
+| sp_turn_post n rest :
+    exited s = false -> mailbox s = RPost n :: rest -> deleted s = false ->
+    sspec K s LTurn (notify_one (set_backlog (backlog s + n) (set_mailbox rest s)))
+| sp_turn_pull c m rest :
+    exited s = false -> mailbox s = RPull c m :: rest -> deleted s = false ->
+    sspec K s LTurn
+      (let k := pull_count (backlog s) m in
+       let s1 := deliver c (RMsgs k)
+                   (set_leased (leased s + k) (set_backlog (backlog s - k) (set_mailbox rest s))) in
+       if Nat.ltb 0 (backlog s - k) then notify_one s1 else s1)
+| sp_turn_nack j rest :
+    exited s = false -> mailbox s = RNack j :: rest -> deleted s = false ->
+    sspec K s LTurn (requeue j (set_mailbox rest s))
+| sp_turn_ack j rest :
+    exited s = false -> mailbox s = RAck j :: rest -> deleted s = false ->
+    sspec K s LTurn (set_leased (leased s - Nat.min j (leased s)) (set_mailbox rest s))
+| sp_turn_delete rest :
+    exited s = false -> mailbox s = RDelete :: rest -> deleted s = false ->
+    sspec K s LTurn
+      (notify_waiters (set_deleted true (set_leased 0 (set_backlog 0 (set_mailbox rest s)))))
+| sp_exit :
+    deleted s = true -> exited s = false ->
+    sspec K s LExit (set_mailbox [] (set_exited true (fold_left close_req (mailbox s) s)))
+| sp_u0 c cs o :
+    get s c = Some cs -> cphase cs = PU0 o ->
+    sspec K s (LCons c) (setc c (with_phase (PU1 (calls s) o)) s)
+| sp_u1_closed c cs snap o :
+    get s c = Some cs -> cphase cs = PU1 snap o -> exited s = true ->
+    sspec K s (LCons c) (setc c (with_phase (PDone (closed_outcome (ckind cs)))) s)
+| sp_u1_send c cs snap o :
+    get s c = Some cs -> cphase cs = PU1 snap o -> exited s = false -> length (mailbox s) < K ->
+    sspec K s (LCons c)
+      (set_mailbox (mailbox s ++ [RPull c (cmax cs)]) (setc c (with_phase (PU2 snap None)) s))
+| sp_u2_closed c cs snap :
+    get s c = Some cs -> cphase cs = PU2 snap (Some RClosed) ->
+    sspec K s (LCons c) (setc c (with_phase (PDone (closed_outcome (ckind cs)))) s)
+| sp_u2_empty c cs snap :
+    get s c = Some cs -> cphase cs = PU2 snap (Some (RMsgs 0)) ->
+    sspec K s (LCons c) (setc c (with_phase (PU3 snap)) s)
+| sp_u2_msgs_unary c cs snap k :
+    get s c = Some cs -> cphase cs = PU2 snap (Some (RMsgs (S k))) -> ckind cs = Unary ->
+    sspec K s (LCons c)
+      (setc c (fun x => add_got (S k) (with_phase (PDone (OMessages (S k))) x)) s)
+| sp_u2_msgs_stream c cs snap k :
+    get s c = Some cs -> cphase cs = PU2 snap (Some (RMsgs (S k))) -> ckind cs = Stream ->
+    sspec K s (LCons c) (setc c (fun x => add_got (S k) (with_phase (PU3 snap) x)) s)
+| sp_u3_permit c cs snap :
+    get s c = Some cs -> cphase cs = PU3 snap -> permit s = true ->
+    sspec K s (LCons c) (set_permit false (setc c (with_phase (PU0 true)) s))
+| sp_u3_calls c cs snap :
+    get s c = Some cs -> cphase cs = PU3 snap -> permit s = false -> snap <> calls s ->
+    sspec K s (LCons c) (setc c (with_phase (PU0 true)) s)
+| sp_u3_park c cs snap :
+    get s c = Some cs -> cphase cs = PU3 snap -> permit s = false -> snap = calls s ->
+    sspec K s (LCons c)
+      (set_waiters (waiters s ++ [c]) (setc c (with_phase (PParked NNone)) s))
+| sp_woken c cs n :
+    get s c = Some cs -> cphase cs = PParked n -> n <> NNone ->
+    sspec K s (LCons c) (setc c (with_phase (PU0 true)) s)
+| sp_delexit c cs :
+    deleted s = true -> get s c = Some cs -> alive (cphase cs) = true ->
+    (ckind cs = Unary \/ (exists snap, cphase cs = PU3 snap) \/ (exists n, cphase cs = PParked n)) ->
+    sspec K s (LDelExit c) (finish (cphase cs) c (with_phase (PDone ONotFound)) s)
+| sp_enq r :
+    is_pull r = false -> exited s = false -> length (mailbox s) < K ->
+    sspec K s (LEnq r) (set_mailbox (mailbox s ++ [r]) s)
+| sp_expire_del j :
+    exited s = false -> deleted s = true -> sspec K s (LExpire j) s
+| sp_expire j :
+    exited s = false -> deleted s = false -> sspec K s (LExpire j) (requeue j s)
+| sp_arrive k m :
+    sspec K s (LArrive k m) (set_conss (conss s ++ [new_cons k m]) s)
+| sp_cancel c cs :
+    get s c = Some cs -> alive (cphase cs) = true ->
+    sspec K s (LCancel c) (finish (cphase cs) c (with_phase PGone) s)
+| sp_timeout c cs :
+    get s c = Some cs -> alive (cphase cs) = true -> ckind cs = Unary ->
+    sspec K s (LTimeout c)
+      (finish (cphase cs) c (fun x => with_timed (with_phase (PDone OEmpty) x)) s).
+
+Lemma step_sspec K s l s' : step K s l = Some s' -> sspec K s l s'.
+Proof.
+  destruct l as [| |c|c|r|j|k m|c|c]; cbn [step]; intros H.
+  - unfold turn in H. destruct (exited s) eqn:Ex; [discriminate|].
+    destruct (mailbox s) as [|r rest] eqn:Em; [discriminate|]. injection H as <-.
+    destruct (deleted s) eqn:Ed.
+    + destruct r as [n|c m|j|j|]; cbv beta zeta iota.
+      * eapply sp_turn_del_other; eauto.
+      * apply (sp_turn_del_pull K s c m rest); auto.
+      * eapply sp_turn_del_other; eauto.
+      * eapply sp_turn_del_other; eauto.
+      * eapply sp_turn_del_other; eauto.
+    + destruct r; cbv beta zeta iota.
+      * apply sp_turn_post; auto.
+      * apply sp_turn_pull; auto.
+      * apply sp_turn_nack; auto.
+      * apply sp_turn_ack; auto.
+      * apply sp_turn_delete; auto.
+  - unfold actor_exit in H. destruct (deleted s) eqn:Ed; destruct (exited s) eqn:Ex; cbn in H; try discriminate.
+    injection H as <-. apply sp_exit; auto.
+  - unfold cons_step in H. destruct (get s c) as [cs|] eqn:G; [|discriminate].
+    destruct (cphase cs) as [o|snap o|snap [[[|k]|]|]|snap|n| |] eqn:P; try discriminate.
+    + injection H as <-. eapply sp_u0; eauto.
+    + destruct (exited s) eqn:Ex.
+      * injection H as <-. eapply sp_u1_closed; eauto.
+      * destruct (Nat.ltb (length (mailbox s)) K) eqn:L; [|discriminate].
+        injection H as <-. apply Nat.ltb_lt in L. eapply sp_u1_send; eauto.
+    + injection H as <-. eapply sp_u2_empty; eauto.
+    + destruct (ckind cs) eqn:Ek; injection H as <-.
+      * eapply sp_u2_msgs_unary; eauto.
+      * eapply sp_u2_msgs_stream; eauto.
+    + injection H as <-. eapply sp_u2_closed; eauto.
+    + unfold poll_init in H. destruct (permit s) eqn:Ep.
+      * injection H as <-. eapply sp_u3_permit; eauto.
+      * destruct (Nat.eqb snap (calls s)) eqn:Ec; injection H as <-.
+        -- apply Nat.eqb_eq in Ec. eapply sp_u3_park; eauto.
+        -- apply Nat.eqb_neq in Ec. eapply sp_u3_calls; eauto.
+    + destruct n; try discriminate; injection H as <-; eapply sp_woken; eauto; discriminate.
+  - unfold del_exit in H. destruct (deleted s) eqn:Ed; cbn [negb] in H; [|discriminate].
+    destruct (get s c) as [cs|] eqn:G; [|discriminate].
+    pose proof (sp_delexit K s c cs Ed G) as Q.
+    destruct (ckind cs) eqn:Ek; destruct (cphase cs) eqn:P; try discriminate; injection H as <-;
+      apply Q; auto; eauto.
+  - destruct (is_pull r) eqn:Ip; cbn [orb negb] in H; [discriminate|].
+    destruct (exited s) eqn:Ex; cbn [orb negb] in H; [discriminate|].
+    destruct (Nat.ltb (length (mailbox s)) K) eqn:L; cbn [orb negb] in H; [|discriminate].
+    injection H as <-. apply Nat.ltb_lt in L. apply sp_enq; auto.
+  - destruct (exited s) eqn:Ex; [discriminate|]. injection H as <-.
+    destruct (deleted s) eqn:Ed; [apply sp_expire_del|apply sp_expire]; auto.
+  - injection H as <-. apply sp_arrive.
+  - unfold cancel in H. destruct (get s c) as [cs|] eqn:G; [|discriminate].
+    destruct (alive (cphase cs)) eqn:A; [|discriminate]. injection H as <-. apply sp_cancel; auto.
+  - unfold timeout in H. destruct (get s c) as [cs|] eqn:G; [|discriminate].
+    destruct (ckind cs) eqn:Ek; [|discriminate].
+    destruct (alive (cphase cs)) eqn:A; [|discriminate]. injection H as <-. apply sp_timeout; auto.
+Qed.
+
+(* ------------------------------------------------------------------ *)
+(* nwf is preserved by every step                                      *)
+
+Ltac neutral G P :=
+  let x := fresh "x" in let Gx := fresh "Gx" in
+  intros x Gx; rewrite G in Gx; injection Gx as <-; cbn; rewrite ?P; split; congruence.
+
+Lemma deliver_f_parked r cs p :
+  (forall snap o, p <> PU2 snap o) -> cphase (deliver_f r cs) = p <-> cphase cs = p.
+Proof.
+  intros Hp. unfold deliver_f. destruct (cphase cs) as [| |snap [|]| | | |] eqn:E; cbn; rewrite ?E; try tauto.
+  split; intros <-; exfalso; eapply Hp; reflexivity.
+Qed.
+
+Lemma nwf_deliver c r s : nwf s -> nwf (deliver c r s).
+Proof.
+  intros W. apply nwf_setc_neutral; auto. intros cs _. apply deliver_f_parked. discriminate.
+Qed.
+
+Lemma nwf_close l : forall s, nwf s -> nwf (fold_left close_req l s).
+Proof.
+  induction l as [|r l IH]; intros s W; cbn; auto. apply IH. destruct r; cbn; auto.
+  apply nwf_deliver; auto.
+Qed.
+
+Lemma nwf_requeue j s : nwf s -> nwf (requeue j s).
+Proof.
+  intros W. unfold requeue. destruct (Nat.ltb 0 _).
+  - apply nwf_notify_one. eapply nwf_ext; eauto.
+  - eapply nwf_ext; eauto.
+Qed.
+
+Lemma nwf_finish s c cs f :
+  nwf s -> get s c = Some cs -> cphase (f cs) <> PParked NNone ->
+  nwf (finish (cphase cs) c f s).
+Proof.
+  intros W G Hf. unfold finish.
+  assert (N : forall n, n <> NNone -> cphase cs = PParked n -> nwf (setc c f s)).
+  { intros n Hn P. apply nwf_setc_neutral; auto. intros x Gx. rewrite G in Gx. injection Gx as <-.
+    rewrite P. split; intros Q; [contradiction|congruence]. }
+  destruct (cphase cs) as [| | | |[]| |] eqn:P;
+    try (apply nwf_setc_neutral; auto; intros x Gx; rewrite G in Gx; injection Gx as <-; rewrite P;
+         split; intros Q; [contradiction|congruence]).
+  - (* Waiting(none): leave the list *)
+    destruct W as [A B C]. split; ss.
+    + apply nodup_remove; auto.
+    + intros c'. rewrite in_remove_iff, B. unfold parkedN. ss. split.
+      * intros [(cs' & G' & P') N']. exists cs'. rewrite get_setc_other; auto.
+      * intros (cs' & G' & P'). apply get_setc_inv in G'. destruct G' as [(-> & x & Gx & ->)|(N' & G')].
+        -- rewrite G in Gx. injection Gx as <-. contradiction.
+        -- split; eauto.
+    + intros Hp. rewrite (C Hp). reflexivity.
+  - (* Waiting(one): forward *)
+    apply nwf_notify_one. apply (N NOne); auto. discriminate.
+Qed.
+
+Lemma nwf_park s c cs :
+  nwf s -> get s c = Some cs -> cphase cs <> PParked NNone -> permit s = false ->
+  nwf (set_waiters (waiters s ++ [c]) (setc c (with_phase (PParked NNone)) s)).
+Proof.
+  intros [A B C] G P Hp.
+  assert (Nin : ~ In c (waiters s)).
+  { intros Hin. apply B in Hin. destruct Hin as (x & Gx & Px). congruence. }
+  split; ss.
+  - rewrite <- (rev_involutive (waiters s ++ [c])). apply NoDup_rev. rewrite rev_app_distr. cbn.
+    constructor; [rewrite <- in_rev; assumption|apply NoDup_rev; assumption].
+  - intros c'. rewrite in_app_iff, B. unfold parkedN. ss. split.
+    + intros [(x & Gx & Px)|[<-|[]]].
+      * exists x. rewrite get_setc_other; auto. intros ->. congruence.
+      * exists (with_phase (PParked NNone) cs). split; auto. apply get_setc_same; auto.
+    + intros (x & Gx & Px). apply get_setc_inv in Gx. destruct Gx as [(-> & y & Gy & ->)|(N' & Gx)].
+      * right. left. reflexivity.
+      * left. eauto.
+  - congruence.
+Qed.
+
+Lemma wake_idem n cs : wake n (wake n cs) = wake n cs.
+Proof.
+  unfold wake. destruct (cphase cs) as [| | | |[]| |] eqn:E; cbn; rewrite ?E; auto.
+  destruct n; reflexivity.
+Qed.
+
+Lemma fold_upd_get (g : cons -> cons) (Hg : forall x, g (g x) = g x) ws :
+  forall l c,
+    nth_error (fold_left (fun l w => upd l w g) ws l) c =
+    option_map (fun cs => if in_dec Nat.eq_dec c ws then g cs else cs) (nth_error l c).
+Proof.
+  induction ws as [|w ws IH]; intros l c.
+  - cbn. destruct (nth_error l c); reflexivity.
+  - cbn [fold_left]. rewrite IH, nth_upd.
+    destruct (Nat.eq_dec w c) as [->|N].
+    + destruct (nth_error l c) as [cs|]; cbn [option_map]; auto.
+      destruct (in_dec Nat.eq_dec c ws); destruct (in_dec Nat.eq_dec c (c :: ws)) as [|N2];
+        rewrite ?Hg; auto; exfalso; apply N2; left; auto.
+    + destruct (nth_error l c) as [cs|]; cbn [option_map]; auto.
+      destruct (in_dec Nat.eq_dec c ws) as [I|I]; destruct (in_dec Nat.eq_dec c (w :: ws)) as [I2|I2]; auto.
+      * exfalso. apply I2. right. auto.
+      * exfalso. destruct I2; congruence.
+Qed.
+
+Lemma get_notify_waiters s c :
+  get (notify_waiters s) c =
+  option_map (fun cs => if in_dec Nat.eq_dec c (waiters s) then wake NAll cs else cs) (get s c).
+Proof.
+  unfold notify_waiters, get; cbn. apply fold_upd_get. apply wake_idem.
+Qed.
+
+Lemma nwf_notify_waiters s : nwf s -> nwf (notify_waiters s).
+Proof.
+  intros [A B C]. split.
+  - cbn. constructor.
+  - intros c. cbn [notify_waiters waiters set_calls set_waiters]. split; [intros []|].
+    intros (cs' & G & P). rewrite get_notify_waiters in G.
+    destruct (get s c) as [cs|] eqn:Gc; [|discriminate]. cbn in G. injection G as <-.
+    destruct (in_dec Nat.eq_dec c (waiters s)) as [I|I].
+    + revert P. apply wake_phase_N. discriminate.
+    + apply I. apply B. exists cs. auto.
+  - reflexivity.
+Qed.
+
+Lemma get_arrive s x c cs :
+  get s c = Some cs -> get (set_conss (conss s ++ [x]) s) c = Some cs.
+Proof.
+  unfold get; cbn. intros G. rewrite nth_error_app1; auto. apply nth_error_Some. congruence.
+Qed.
+
+Lemma get_arrive_inv s x c cs :
+  get (set_conss (conss s ++ [x]) s) c = Some cs ->
+  get s c = Some cs \/ (c = length (conss s) /\ cs = x /\ get s c = None).
+Proof.
+  unfold get; cbn. intros G. destruct (Nat.lt_ge_cases c (length (conss s))) as [L|L].
+  - rewrite nth_error_app1 in G; auto.
+  - right. rewrite nth_error_app2 in G; auto.
+    destruct (c - length (conss s)) as [|d] eqn:E.
+    + cbn in G. injection G as <-. repeat split; [lia|]. apply nth_error_None. lia.
+    + cbn in G. destruct d; discriminate.
+Qed.
+
+Lemma nwf_arrive s k m : nwf s -> nwf (set_conss (conss s ++ [new_cons k m]) s).
+Proof.
+  intros [A B C]. split; ss; auto.
+  intros c. rewrite B. unfold parkedN. split.
+  - intros (cs & G & P). exists cs. split; auto. apply get_arrive; auto.
+  - intros (cs & G & P). apply get_arrive_inv in G. destruct G as [G|(_ & -> & _)]; [eauto|discriminate].
+Qed.
+
+Lemma nwf_init : nwf init.
+Proof.
+  split; cbn; [constructor| |auto]. intros c. split; [intros []|].
+  intros (cs & G & _). unfold get in G. cbn in G. destruct c; discriminate.
+Qed.
+
+Lemma nwf_step K s l s' : nwf s -> step K s l = Some s' -> nwf s'.
+Proof.
+  intros W H. apply step_sspec in H.
+  destruct H as [c m rest Ex Em Ed|r rest Ex Em Ed Ip|n rest Ex Em Ed|c m rest Ex Em Ed
+                |j rest Ex Em Ed|j rest Ex Em Ed|rest Ex Em Ed|Ed Ex
+                |c cs o G P|c cs snap o G P Ex|c cs snap o G P Ex L|c cs snap G P|c cs snap G P
+                |c cs snap k G P Ek|c cs snap k G P Ek|c cs snap G P Ep|c cs snap G P Ep Ec
+                |c cs snap G P Ep Ec|c cs n G P Hn|c cs Ed G A Hk|r Ip Ex L|j Ex Ed|j Ex Ed|k m
+                |c cs G A|c cs G A Ek].
+  - apply nwf_deliver. eapply nwf_ext; eauto.
+  - eapply nwf_ext; eauto.
+  - apply nwf_notify_one. eapply nwf_ext; eauto.
+  - cbv zeta. assert (nwf (deliver c (RMsgs (pull_count (backlog s) m))
+       (set_leased (leased s + pull_count (backlog s) m)
+          (set_backlog (backlog s - pull_count (backlog s) m) (set_mailbox rest s))))).
+    { apply nwf_deliver. eapply nwf_ext; eauto. }
+    destruct (Nat.ltb 0 _); auto. apply nwf_notify_one; auto.
+  - apply nwf_requeue. eapply nwf_ext; eauto.
+  - eapply nwf_ext; eauto.
+  - apply nwf_notify_waiters. eapply nwf_ext; eauto.
+  - eapply nwf_ext with (s := fold_left close_req (mailbox s) s); auto. apply nwf_close; auto.
+  - apply nwf_setc_neutral; auto. neutral G P.
+  - apply nwf_setc_neutral; auto. neutral G P.
+  - eapply nwf_ext with (s := setc c (with_phase (PU2 snap None)) s); auto.
+    apply nwf_setc_neutral; auto. neutral G P.
+  - apply nwf_setc_neutral; auto. neutral G P.
+  - apply nwf_setc_neutral; auto. neutral G P.
+  - apply nwf_setc_neutral; auto. neutral G P.
+  - apply nwf_setc_neutral; auto. neutral G P.
+  - assert (W1 : nwf (setc c (with_phase (PU0 true)) s)) by (apply nwf_setc_neutral; auto; neutral G P).
+    destruct W1 as [A1 B1 C1]. split; ss; auto.
+  - apply nwf_setc_neutral; auto. neutral G P.
+  - apply nwf_park with (cs := cs); auto. congruence.
+  - apply nwf_setc_neutral; auto. neutral G P.
+  - apply nwf_finish; auto. discriminate.
+  - eapply nwf_ext; eauto.
+  - assumption.
+  - apply nwf_requeue; auto.
+  - apply nwf_arrive; auto.
+  - apply nwf_finish; auto. discriminate.
+  - apply nwf_finish; auto. discriminate.
+Qed.
+
+Theorem notify_wf K s : reachable K s -> nwf s.
+Proof. induction 1; [apply nwf_init|eapply nwf_step; eauto]. Qed.
+
+(* ------------------------------------------------------------------ *)
+(* Frame lemmas: which scalar fields the Notify operations leave alone *)
+
+Lemma backlog_notify_one s : backlog (notify_one s) = backlog s.
+Proof. unfold notify_one. destruct (waiters s); reflexivity. Qed.
+Lemma leased_notify_one s : leased (notify_one s) = leased s.
+Proof. unfold notify_one. destruct (waiters s); reflexivity. Qed.
+Lemma deleted_notify_one s : deleted (notify_one s) = deleted s.
+Proof. unfold notify_one. destruct (waiters s); reflexivity. Qed.
+Lemma exited_notify_one s : exited (notify_one s) = exited s.
+Proof. unfold notify_one. destruct (waiters s); reflexivity. Qed.
+Lemma mailbox_notify_one s : mailbox (notify_one s) = mailbox s.
+Proof. unfold notify_one. destruct (waiters s); reflexivity. Qed.
+Lemma calls_notify_one s : calls (notify_one s) = calls s.
+Proof. unfold notify_one. destruct (waiters s); reflexivity. Qed.
+Lemma backlog_finish old c f s : backlog (finish old c f s) = backlog s.
+Proof. unfold finish. destruct old as [| | | |[]| |]; cbn [backlog set_waiters]; rewrite ?backlog_notify_one; reflexivity. Qed.
+Lemma leased_finish old c f s : leased (finish old c f s) = leased s.
+Proof. unfold finish. destruct old as [| | | |[]| |]; cbn [leased set_waiters]; rewrite ?leased_notify_one; reflexivity. Qed.
+Lemma deleted_finish old c f s : deleted (finish old c f s) = deleted s.
+Proof. unfold finish. destruct old as [| | | |[]| |]; cbn [deleted set_waiters]; rewrite ?deleted_notify_one; reflexivity. Qed.
+Lemma exited_finish old c f s : exited (finish old c f s) = exited s.
+Proof. unfold finish. destruct old as [| | | |[]| |]; cbn [exited set_waiters]; rewrite ?exited_notify_one; reflexivity. Qed.
+Lemma mailbox_finish old c f s : mailbox (finish old c f s) = mailbox s.
+Proof. unfold finish. destruct old as [| | | |[]| |]; cbn [mailbox set_waiters]; rewrite ?mailbox_notify_one; reflexivity. Qed.
+Lemma calls_finish old c f s : calls (finish old c f s) = calls s.
+Proof. unfold finish. destruct old as [| | | |[]| |]; cbn [calls set_waiters]; rewrite ?calls_notify_one; reflexivity. Qed.
+Lemma backlog_deliver c r s : backlog (deliver c r s) = backlog s.
+Proof. reflexivity. Qed.
+Lemma leased_deliver c r s : leased (deliver c r s) = leased s.
+Proof. reflexivity. Qed.
+Lemma deleted_deliver c r s : deleted (deliver c r s) = deleted s.
+Proof. reflexivity. Qed.
+Lemma exited_deliver c r s : exited (deliver c r s) = exited s.
+Proof. reflexivity. Qed.
+Lemma mailbox_deliver c r s : mailbox (deliver c r s) = mailbox s.
+Proof. reflexivity. Qed.
+Lemma calls_deliver c r s : calls (deliver c r s) = calls s.
+Proof. reflexivity. Qed.
+Lemma backlog_close l : forall s, backlog (fold_left close_req l s) = backlog s.
+Proof. induction l as [|r l IH]; intros s; cbn [fold_left]; auto. rewrite IH. destruct r; reflexivity. Qed.
+Lemma leased_close l : forall s, leased (fold_left close_req l s) = leased s.
+Proof. induction l as [|r l IH]; intros s; cbn [fold_left]; auto. rewrite IH. destruct r; reflexivity. Qed.
+Lemma deleted_close l : forall s, deleted (fold_left close_req l s) = deleted s.
+Proof. induction l as [|r l IH]; intros s; cbn [fold_left]; auto. rewrite IH. destruct r; reflexivity. Qed.
+Lemma exited_close l : forall s, exited (fold_left close_req l s) = exited s.
+Proof. induction l as [|r l IH]; intros s; cbn [fold_left]; auto. rewrite IH. destruct r; reflexivity. Qed.
+Lemma mailbox_close l : forall s, mailbox (fold_left close_req l s) = mailbox s.
+Proof. induction l as [|r l IH]; intros s; cbn [fold_left]; auto. rewrite IH. destruct r; reflexivity. Qed.
+Lemma calls_close l : forall s, calls (fold_left close_req l s) = calls s.
+Proof. induction l as [|r l IH]; intros s; cbn [fold_left]; auto. rewrite IH. destruct r; reflexivity. Qed.
+Lemma permit_close l : forall s, permit (fold_left close_req l s) = permit s.
+Proof. induction l as [|r l IH]; intros s; cbn [fold_left]; auto. rewrite IH. destruct r; reflexivity. Qed.
+Lemma waiters_close l : forall s, waiters (fold_left close_req l s) = waiters s.
+Proof. induction l as [|r l IH]; intros s; cbn [fold_left]; auto. rewrite IH. destruct r; reflexivity. Qed.
+Lemma deleted_requeue j s : deleted (requeue j s) = deleted s.
+Proof. unfold requeue. destruct (Nat.ltb 0 _); rewrite ?deleted_notify_one; reflexivity. Qed.
+Lemma exited_requeue j s : exited (requeue j s) = exited s.
+Proof. unfold requeue. destruct (Nat.ltb 0 _); rewrite ?exited_notify_one; reflexivity. Qed.
+Lemma mailbox_requeue j s : mailbox (requeue j s) = mailbox s.
+Proof. unfold requeue. destruct (Nat.ltb 0 _); rewrite ?mailbox_notify_one; reflexivity. Qed.
+Lemma calls_requeue j s : calls (requeue j s) = calls s.
+Proof. unfold requeue. destruct (Nat.ltb 0 _); rewrite ?calls_notify_one; reflexivity. Qed.
+Lemma backlog_notify_waiters s : backlog (notify_waiters s) = backlog s.
+Proof. reflexivity. Qed.
+Lemma leased_notify_waiters s : leased (notify_waiters s) = leased s.
+Proof. reflexivity. Qed.
+Lemma deleted_notify_waiters s : deleted (notify_waiters s) = deleted s.
+Proof. reflexivity. Qed.
+Lemma exited_notify_waiters s : exited (notify_waiters s) = exited s.
+Proof. reflexivity. Qed.
+Lemma mailbox_notify_waiters s : mailbox (notify_waiters s) = mailbox s.
+Proof. reflexivity. Qed.
+Lemma permit_notify_waiters s : permit (notify_waiters s) = permit s.
+Proof. reflexivity. Qed.
+#[global] Hint Rewrite backlog_notify_one leased_notify_one deleted_notify_one exited_notify_one mailbox_notify_one calls_notify_one backlog_finish leased_finish deleted_finish exited_finish mailbox_finish calls_finish backlog_deliver leased_deliver deleted_deliver exited_deliver mailbox_deliver calls_deliver backlog_close leased_close deleted_close exited_close mailbox_close calls_close permit_close waiters_close deleted_requeue exited_requeue mailbox_requeue calls_requeue backlog_notify_waiters leased_notify_waiters deleted_notify_waiters exited_notify_waiters mailbox_notify_waiters permit_notify_waiters : frame.
+
+Ltac fr := ss; autorewrite with frame in *; ss; autorewrite with frame in *.
+
+
+(* ------------------------------------------------------------------ *)
+(* A (continued). Actor / mailbox well-formedness                      *)
+
+Definition u2n (s : state) (c : nat) : Prop :=
+  exists cs snap, get s c = Some cs /\ cphase cs = PU2 snap None.
+
+Record swf (K : nat) (s : state) : Prop := {
+  sw_exit : exited s = true -> deleted s = true /\ mailbox s = [];
+  sw_mbox : length (mailbox s) <= K;
+  sw_u2 : forall c, u2n s c -> exists m, In (RPull c m) (mailbox s);
+  sw_calls : calls s = if deleted s then 1 else 0
+}.
+
+Definition reflects (f : cons -> cons) : Prop :=
+  forall x snap, cphase (f x) = PU2 snap None -> cphase x = PU2 snap None.
+
+Lemma u2n_setc s c0 f c : reflects f -> u2n (setc c0 f s) c -> u2n s c.
+Proof.
+  intros Hf (cs & snap & G & P). apply get_setc_inv in G. destruct G as [(-> & x & Gx & ->)|(N & G)].
+  - exists x, snap. split; auto.
+  - exists cs, snap. auto.
+Qed.
+
+Lemma u2n_setc_not s c0 f c :
+  (forall x snap, cphase (f x) <> PU2 snap None) -> u2n (setc c0 f s) c -> u2n s c /\ c <> c0.
+Proof.
+  intros Hf (cs & snap & G & P). apply get_setc_inv in G. destruct G as [(-> & x & Gx & ->)|(N & G)].
+  - exfalso. eapply Hf; eauto.
+  - split; auto. exists cs, snap. auto.
+Qed.
+
+Lemma u2n_ext s s' c : conss s' = conss s -> u2n s' c -> u2n s c.
+Proof. unfold u2n, get. intros ->. auto. Qed.
+
+Lemma wake_reflects n : reflects (wake n).
+Proof.
+  intros x snap. unfold wake. destruct (cphase x) as [| | | |[]| |] eqn:E; cbn; rewrite ?E; congruence.
+Qed.
+
+Lemma deliver_f_not r x snap : cphase (deliver_f r x) <> PU2 snap None.
+Proof.
+  unfold deliver_f. destruct (cphase x) as [| |s0 [|]| | | |] eqn:E; cbn; rewrite ?E; congruence.
+Qed.
+
+Lemma u2n_notify_one s c : u2n (notify_one s) c -> u2n s c.
+Proof.
+  unfold notify_one. destruct (waiters s) as [|w ws].
+  - apply u2n_ext. reflexivity.
+  - intros H. apply u2n_ext with (s := setc w (wake NOne) s) in H; [|reflexivity].
+    eapply u2n_setc; eauto. apply wake_reflects.
+Qed.
+
+Lemma u2n_notify_waiters s c : u2n (notify_waiters s) c -> u2n s c.
+Proof.
+  intros (cs & snap & G & P). rewrite get_notify_waiters in G.
+  destruct (get s c) as [x|] eqn:Gx; [|discriminate]. cbn in G. injection G as <-.
+  exists x, snap. split; auto. destruct (in_dec Nat.eq_dec c (waiters s)); auto.
+  apply wake_reflects in P. assumption.
+Qed.
+
+Lemma u2n_finish old s c0 f c :
+  (forall x snap, cphase (f x) <> PU2 snap None) -> u2n (finish old c0 f s) c -> u2n s c /\ c <> c0.
+Proof.
+  intros Hf H. apply (u2n_setc_not s c0 f c Hf). unfold finish in H.
+  destruct old as [| | | |[]| |]; auto.
+  apply u2n_notify_one; auto.
+Qed.
+
+Lemma u2n_deliver s c0 r c : u2n (deliver c0 r s) c -> u2n s c /\ c <> c0.
+Proof. apply u2n_setc_not. intros x snap. apply deliver_f_not. Qed.
+
+Lemma u2n_close l : forall s c,
+  u2n (fold_left close_req l s) c -> u2n s c /\ forall m, ~ In (RPull c m) l.
+Proof.
+  induction l as [|r l IH]; intros s c H; cbn [fold_left] in H.
+  - split; auto.
+  - apply IH in H. destruct H as [H1 H2]. destruct r as [n|c0 m0|j|j|]; cbn [close_req] in H1;
+      try (split; [assumption|intros m [E|I]; [discriminate|eapply H2; eauto]]).
+    apply u2n_deliver in H1. destruct H1 as [H1 N]. split; auto.
+    intros m [E|I]; [congruence|eapply H2; eauto].
+Qed.
+
+Lemma u2n_requeue j s c : u2n (requeue j s) c -> u2n s c.
+Proof.
+  unfold requeue. destruct (Nat.ltb 0 _); intros H.
+  - apply u2n_notify_one in H. eapply u2n_ext; [|exact H]. reflexivity.
+  - eapply u2n_ext; [|exact H]. reflexivity.
+Qed.
+
+Lemma u2n_arrive s k m c : u2n (set_conss (conss s ++ [new_cons k m]) s) c -> u2n s c.
+Proof.
+  intros (cs & snap & G & P). apply get_arrive_inv in G. destruct G as [G|(_ & -> & _)]; [|discriminate].
+  exists cs, snap. auto.
+Qed.
+
+Lemma with_phase_not p f : (forall snap, p <> PU2 snap None) ->
+  (forall x, cphase (f x) = p) -> forall (x : cons) snap, cphase (f x) <> PU2 snap None.
+Proof. intros Hp Hf x snap. rewrite Hf. apply Hp. Qed.
+
+Lemma swf_init K : swf K init.
+Proof.
+  split; cbn; try discriminate; try lia; auto.
+  intros c (cs & snap & G & _). unfold get in G. cbn in G. destruct c; discriminate.
+Qed.
+
+Ltac u2_local H :=
+  apply u2n_setc_not in H; [|intros ? ?; cbn; discriminate]; destruct H as [H _].
+
+Lemma swf_step K s l s' : swf K s -> step K s l = Some s' -> swf K s'.
+Proof.
+  intros [X M U CL] H. apply step_sspec in H.
+  destruct H as [c m rest Ex Em Ed|r rest Ex Em Ed Ip|n rest Ex Em Ed|c m rest Ex Em Ed
+                |j rest Ex Em Ed|j rest Ex Em Ed|rest Ex Em Ed|Ed Ex
+                |c cs o G P|c cs snap o G P Ex|c cs snap o G P Ex L|c cs snap G P|c cs snap G P
+                |c cs snap k G P Ek|c cs snap k G P Ek|c cs snap G P Ep|c cs snap G P Ep Ec
+                |c cs snap G P Ep Ec|c cs n G P Hn|c cs Ed G A Hk|r Ip Ex L|j Ex Ed|j Ex Ed|k m
+                |c cs G A|c cs G A Ek];
+    try (assert (Lr : length rest <= K) by (rewrite Em in M; cbn in M; lia)).
+  - split; fr; try congruence; auto.
+    intros c' H. apply u2n_deliver in H. destruct H as [H N]. apply u2n_ext with (s := s) in H; auto.
+    destruct (U c' H) as (m' & I). rewrite Em in I. destruct I as [E|I]; [congruence|eauto].
+  - split; fr; try congruence; auto.
+    intros c' H. apply u2n_ext with (s := s) in H; auto.
+    destruct (U c' H) as (m' & I). rewrite Em in I. destruct I as [E|I]; [subst r; discriminate|eauto].
+  - split; fr; try congruence; auto.
+    intros c' H. apply u2n_notify_one in H. apply u2n_ext with (s := s) in H; auto.
+    destruct (U c' H) as (m' & I). rewrite Em in I. destruct I as [E|I]; [discriminate|eauto].
+  - cbv zeta. split.
+    + destruct (Nat.ltb 0 _); fr; congruence.
+    + destruct (Nat.ltb 0 _); fr; auto.
+    + intros c' H.
+      assert (H' : u2n s c' /\ c' <> c).
+      { destruct (Nat.ltb 0 _); [apply u2n_notify_one in H|]; apply u2n_deliver in H;
+          destruct H as [H N]; (split; [|exact N]); eapply u2n_ext; [|exact H| |exact H]; reflexivity. }
+      destruct H' as [H1 N]. destruct (U c' H1) as (m' & I). rewrite Em in I.
+      assert (Hm : mailbox (if Nat.ltb 0 (backlog s - pull_count (backlog s) m)
+         then notify_one (deliver c (RMsgs (pull_count (backlog s) m))
+                (set_leased (leased s + pull_count (backlog s) m)
+                   (set_backlog (backlog s - pull_count (backlog s) m) (set_mailbox rest s))))
+         else deliver c (RMsgs (pull_count (backlog s) m))
+                (set_leased (leased s + pull_count (backlog s) m)
+                   (set_backlog (backlog s - pull_count (backlog s) m) (set_mailbox rest s)))) = rest)
+        by (destruct (Nat.ltb 0 _); fr; reflexivity).
+      rewrite Hm. destruct I as [E|I]; [congruence|eauto].
+    + destruct (Nat.ltb 0 _); fr; auto.
+  - split; fr; try congruence; auto.
+    intros c' H. apply u2n_requeue in H. apply u2n_ext with (s := s) in H; auto.
+    destruct (U c' H) as (m' & I). rewrite Em in I. destruct I as [E|I]; [discriminate|eauto].
+  - split; fr; try congruence; auto.
+    intros c' H. apply u2n_ext with (s := s) in H; auto.
+    destruct (U c' H) as (m' & I). rewrite Em in I. destruct I as [E|I]; [discriminate|eauto].
+  - split; fr; try congruence; auto.
+    + intros c' H. apply u2n_notify_waiters in H. apply u2n_ext with (s := s) in H; auto.
+      destruct (U c' H) as (m' & I). rewrite Em in I. destruct I as [E|I]; [discriminate|eauto].
+    + unfold notify_waiters; cbn. rewrite CL, Ed. reflexivity.
+  - split; fr; auto; try lia.
+    intros c' H. apply u2n_ext with (s := fold_left close_req (mailbox s) s) in H; auto.
+    apply u2n_close in H. destruct H as [H1 H2]. destruct (U c' H1) as (m' & I). exfalso. eapply H2; eauto.
+  - split; fr; auto. intros c' H. u2_local H. auto.
+  - split; fr; auto. intros c' H. u2_local H. auto.
+  - split; fr; try congruence.
+    + rewrite app_length. cbn. lia.
+    + intros c' H. destruct (Nat.eq_dec c' c) as [->|N].
+      * exists (cmax cs). apply in_or_app. right. left. reflexivity.
+      * apply u2n_ext with (s := setc c (with_phase (PU2 snap None)) s) in H; auto.
+        destruct H as (x & sn & Gx & Px). rewrite get_setc_other in Gx; auto.
+        destruct (U c') as (m' & I); [exists x, sn; auto|]. exists m'. apply in_or_app. auto.
+    + auto.
+  - split; fr; auto. intros c' H. u2_local H. auto.
+  - split; fr; auto. intros c' H. u2_local H. auto.
+  - split; fr; auto. intros c' H. u2_local H. auto.
+  - split; fr; auto. intros c' H. u2_local H. auto.
+  - split; fr; auto. intros c' H.
+    apply u2n_ext with (s := setc c (with_phase (PU0 true)) s) in H; auto. u2_local H. auto.
+  - split; fr; auto. intros c' H. u2_local H. auto.
+  - split; fr; auto. intros c' H.
+    apply u2n_ext with (s := setc c (with_phase (PParked NNone)) s) in H; auto. u2_local H. auto.
+  - split; fr; auto. intros c' H. u2_local H. auto.
+  - split; fr; auto. intros c' H. apply u2n_finish in H; [|intros ? ?; cbn; discriminate].
+    destruct H as [H _]. auto.
+  - split; fr; try congruence.
+    + rewrite app_length. cbn. lia.
+    + intros c' H. apply u2n_ext with (s := s) in H; auto. destruct (U c' H) as (m' & I).
+      exists m'. apply in_or_app. auto.
+    + auto.
+  - split; auto.
+  - split; fr; auto. intros c' H. apply u2n_requeue in H. auto.
+  - split; fr; auto. intros c' H. apply u2n_arrive in H. auto.
+  - split; fr; auto. intros c' H. apply u2n_finish in H; [|intros ? ?; cbn; discriminate].
+    destruct H as [H _]. auto.
+  - split; fr; auto. intros c' H. apply u2n_finish in H; [|intros ? ?; cbn; discriminate].
+    destruct H as [H _]. auto.
+Qed.
+
+Theorem actor_wf K s : reachable K s -> swf K s.
+Proof. induction 1; [apply swf_init|eapply swf_step; eauto]. Qed.
